@@ -144,8 +144,9 @@ def judge(case, t):
     s = case["spec"]
     if not t.ok:
         return ("crash", str(t.crash))
-    if t.xviol:
-        return ("world-invariant", str(t.xviol[:2]))
+    xv = [x for x in t.xviol if x[1] in ('variable-guard-damaged',)]
+    if xv:
+        return ("world-invariant", str(xv[:2]))
     if t.reason != "quiescent":
         return ("no-quiescence", t.reason)
     c = S.all_cmds(s)[0]
